@@ -444,6 +444,24 @@ func Eval(c *core.Ctx, line string) *core.Case {
 			if strings.Contains(impl, "outside") {
 				return "a Frame accessor returned a slice outside the input: " + impl, ""
 			}
+			if c.Prop == "C16" { // views must sit at the offsets the reference decoder computes
+				if i := strings.Index(reply, " | spec: "); i >= 0 {
+					off := func(s string) string {
+						var o []string
+						for _, f := range strings.Fields(s) {
+							for _, k := range []string{"ip4=", "ip6=", "udp=", "tcp=", "pay="} {
+								if strings.HasPrefix(f, k) {
+									o = append(o, f)
+								}
+							}
+						}
+						return strings.Join(o, " ")
+					}
+					if sp, im := off(reply[i+9:]), off(impl); sp != im && !strings.Contains(impl, "err=Err") {
+						return "a view returned by Parse does not alias the buffer at the decoded offset:\n  parse: " + im + "\n  spec : " + sp, ""
+					}
+				}
+			}
 			if c.Prop == "C02" {
 				if i := strings.Index(reply, " | spec: "); i >= 0 {
 					sp := specFields(reply[i+9:])
